@@ -362,7 +362,9 @@ Section Matchers.
     | c :: t => if is_space c then trim_left t else s
     end.
   (** strings.TrimSpace *)
-  Definition trim_space (s : str) : str := rev (trim_left (rev (trim_left s))).
+  (** list reversal in linear time (the lines of a rule file can be 64 KiB long) *)
+  Definition frev (s : str) : str := rev_append s [].
+  Definition trim_space (s : str) : str := frev (trim_left (frev (trim_left s))).
 
   (** utils.RemoveComment(s, "#") *)
   Fixpoint remove_comment (s : str) : str :=
@@ -375,7 +377,7 @@ Section Matchers.
       line without '\n' counts when it is not empty. [cur] = the current line, reversed. *)
   Definition drop_cr_rev (cur : str) : str :=
     match cur with
-    | c :: t => if c =? 13 then rev t else rev cur
+    | c :: t => if c =? 13 then frev t else frev cur
     | [] => []
     end.
   Fixpoint split_lines_aux (cur : str) (s : str) : list str :=
@@ -404,10 +406,10 @@ Section Matchers.
   (** strings.Fields *)
   Fixpoint fields_aux (cur : str) (s : str) : list str :=
     match s with
-    | [] => match cur with [] => [] | _ :: _ => [rev cur] end
+    | [] => match cur with [] => [] | _ :: _ => [frev cur] end
     | c :: t =>
       if is_space c then
-        match cur with [] => fields_aux [] t | _ :: _ => rev cur :: fields_aux [] t end
+        match cur with [] => fields_aux [] t | _ :: _ => frev cur :: fields_aux [] t end
       else fields_aux (c :: cur) t
     end.
   Definition fields (s : str) : list str := fields_aux [] s.
